@@ -204,6 +204,11 @@ def draw_edit(draw, obj, depth=0, focus=False):
     if pats:
         kinds += ["pat"] * 2
     k = draw(st.sampled_from(kinds))
+    containers = [i for i in mods if type(p.modules[i]).__name__ in ("MetaModule", "Sampler")]
+    if focus and containers:
+        # concentrate on the type-specific payload of the container modules the project holds
+        mi = draw(st.sampled_from(containers))
+        return ["mod", mi] + draw(draw_module_edit(p.modules[mi], True, depth, True))
     if k == "pf":
         name = draw(st.sampled_from(sorted(build.PROJECT_FIELD_STRATS)))
         return ["pf", name, draw(build.PROJECT_FIELD_STRATS[name])]
